@@ -21,7 +21,9 @@ EXPLANATION = (
     "$TTL values in the RFC 1035 5.1 / RFC 2308 4 order (this line, $TTL, last explicit); $ORIGIN/$TTL write only their field; "
     "the record is built from exactly these and keyed by its own name and type; (T1) every RDATA item of a line (plain or "
     "parenthesised) reaches the rdata parser, and a line is flushed at EOL and at end of input; (T2) RData::from_tokens builds "
-    "variant X from X::from_tokens under record_type == X, and every domain name embedded in RDATA is parsed against the origin.")
+    "variant X from X::from_tokens under record_type == X, and every domain name embedded in RDATA is parsed against the origin; (S3) when a "
+    "lexer ($INCLUDEd or top-level file) is exhausted, the line state is taken and reset to StartLine and a pending Record inserted before "
+    "the lexer is popped.")
 NOT_DECIDED = ("That every layout of every record set denotes the same records (a for-all over texts against an independent printer); "
                "per-type field syntax; the numeric value of \\DDD escapes (observations F14/F20 in DESIGN.md, outside the statement's "
                "enumerated layouts).")
